@@ -110,5 +110,6 @@ func (c *Ctx) poolStats(p *pool.Pool) {
 	c.Rep.Extra["server_cases"] = p.Cases
 	c.Rep.Extra["server_crashes"] = p.Crashes
 	c.Rep.Extra["server_hangs"] = p.Hangs
+	c.Rep.Extra["cases_repeated_after_silence"] = p.Retried
 	c.Rep.Extra["max_step_ms"] = p.MaxMs
 }
